@@ -316,6 +316,8 @@ def _check(args):
         for row_ in form["survey"]:
             if row_.get("name") and not row_.get("type", "").startswith(("begin", "end")) and rl.random() < 0.3:
                 row_[rl.choice(["instance::control", "instance::bind", "instance::parent", "bind::parent"])] = "v"
+    if i % 13 == 6 and any(r_.get("type", "").startswith(("select_multiple ", "select all that apply ")) for r_ in form["survey"]):
+        form.setdefault("settings", [{}])[0]["add_none_option"] = "yes"      # an undocumented legacy setting: known finding F62
     desc = {"form": form, "case": i}
     try:
         direct = convert(copy.deepcopy(forms.as_dict(form)), form_name="data")
@@ -352,8 +354,22 @@ def _check(args):
     except Exception as e:   # noqa: BLE001
         probs.append(f"round trip raised {e!r}")
     if probs:
-        return {"i": i, "input": desc, "what": "; ".join(probs)[:900]}
+        return {"i": i, "input": desc, "what": "; ".join(probs)[:900], "finding": classify(form)}
     return {"i": i, "ok": True, "key": hash(x0), "n": len(form["survey"])}
+
+
+def classify(form):
+    """the one listed finding of this property, recognised by the setting that causes it"""
+    srow = (form.get("settings") or [{}])[0]
+    if str(srow.get("add_none_option", "")).strip().lower() in ("yes", "true", "true()", "1") and any(
+            r.get("type", "").startswith(("select_multiple ", "select all that apply ")) for r in form.get("survey", [])):
+        return "F62-add-none-option"
+    return None
+
+
+FINDING_INPUTS = {"F62-add-none-option": {"survey": [{"type": "select_multiple c", "name": "q1", "label": "Q1"}, {"type": "select_multiple c", "name": "q2", "label": "Q2"}],
+                                          "choices": [{"list_name": "c", "name": "a", "label": "A"}, {"list_name": "c", "name": "b", "label": "B"}],
+                                          "settings": [{"add_none_option": "yes"}]}}
 
 
 def diff_dicts(a, b, path=""):
@@ -401,12 +417,26 @@ def oracle(seed, tier, searching=False):
                 "same dump, and a second reload leaves the dump unchanged; (C) the dump of the survey that already generated its XForm reloads to the same XForm; "
                 "every third case adds rarely used features (osm tags, search() selects, legacy types with a type-table hint, a choices column called parent, empty groups, calculate messages, audit)",
         "accepted": len(oks), "skipped": skips,
-        "failures": [{"input": f["input"], "what": f["what"], "reproduce": "cd /verif && /venv/bin/python harness/check.py C16 --replay <this file>"} for f in fails[:8]],
+        "failures": [{"input": f["input"], "what": f["what"], "finding": f.get("finding"), "reproduce": "cd /verif && /venv/bin/python harness/check.py C16 --replay <this file>"}
+                     for f in sorted(fails, key=lambda f_: f_.get("finding") is not None)[:8]],
         "samples": [{"oracle_case": r["i"], "rows": r["n"]} for r in oks[:3]],
     }
 
 
 def replay_finding(slug):
+    """the committed input of the listed finding, run through the same round trips as a generated case"""
+    form = FINDING_INPUTS.get(slug)
+    if not form:
+        return None
+    from pyxform.builder import create_survey_element_from_json
+    from pyxform.xls2xform import convert
+    direct = convert(copy.deepcopy(forms.as_dict(form)), form_name="data")
+    js = json.dumps(direct._pyxform)
+    x1 = create_survey_element_from_json(js).to_xml(validate=False, pretty_print=False)
+    d1 = create_survey_element_from_json(js).to_json_dict()
+    d2 = create_survey_element_from_json(json.dumps(d1)).to_json_dict()
+    if x1 != direct.xform or d1 != d2:
+        return {"input": form, "what": "reload of the JSON form gives a different XForm" if x1 != direct.xform else "the dump is not stable under dump, load, dump"}
     return None
 
 
